@@ -17,6 +17,7 @@ from sim import actions, alpha, oracles, seams
 from sim.world import World, reset_library
 
 STEP_TIMEOUT_S = 75
+RUN_BUDGET_S = 120
 
 
 class StepTimeout(BaseException):
@@ -206,6 +207,7 @@ def execute_run(
     world.op_specs = cfg.get("ops", {})
     world.fresh_ops = bool(cfg.get("fresh_ops"))  # C15 twin: a new Operation object for every application
     rr = RunResult()
+    _run_t0 = time.time()
     rr.world = world
     if keep_snapshots:
         rr.snapshots = []
@@ -279,6 +281,12 @@ def execute_run(
                 break
             if post.too_big:
                 rr.stopped = "size"
+                break
+            if time.time() - _run_t0 > RUN_BUDGET_S:
+                # a run that is merely slow (many expensive steps, each below the step watchdog) ends
+                # here as a harness record; it must never reach the worker's hard watchdog
+                rr.harness_error = f"HARNESS:run-budget {RUN_BUDGET_S} s used after {rr.steps} steps"
+                rr.stopped = "timeout"
                 break
             pre = post
     finally:
